@@ -260,6 +260,9 @@ class deflated_solver : public amgcl::detail::non_copyable {
                 << "Solver\n======\n" << p.S << std::endl
                 << "Preconditioner\n==============\n" << p.P;
         }
+#ifdef AMGCL_VERIF
+    friend struct ::amgcl::verif::access;
+#endif
     private:
         size_t           n;
         Precond          P;
